@@ -24,6 +24,7 @@ Laws (names are the violation keys):
                                                   message rows: soft touches none; hard stamps exactly the live requested rows with
                                                   the transaction number and erases their content
   rejected-delete-no-effect                      a refused request changes no row
+  permitted-delete-accepted                      a well-formed request from an attached user with R (or D) is accepted
   history-rows-stable                            no other request changes message rows, log rows or the delete counter
   rows-refine-spec                               abs(store rows) = specification state, after every request
   dellog-needs-read / dellog-exact / dellog-delid {get del}: ids deleted for that user in the asked transactions, largest number
@@ -65,6 +66,17 @@ def req_ids(last, req):
         top = lo + 1 if (hi == 0 or hi == lo) else hi
         s.update(x for x in range(lo, min(top, last + 1)))
     return s
+
+
+def req_valid(last, req):
+    """the requests replyDelMsg's validation loop lets through (Ranges.req_valid, c04_del_ranges_accepts);
+    the count limit (1024) is out of reach of the generated ids"""
+    if not req:
+        return False
+    for lo, hi in req:
+        if lo > last or lo < 0 or hi < 0 or (hi > 0 and lo > hi) or (lo == 0 and hi == 0):
+            return False
+    return sum((1 if (hi == 0 or hi == lo) else min(hi, last + 1) - lo) for lo, hi in req) <= 1024
 
 
 def parse_ranges(text):
@@ -373,6 +385,10 @@ def monitor(sc, views):
             elif prev is not None:
                 if attached and "R" not in mode and "D" not in mode and code != 403 and fault == "N":
                     res.append(("delete-needs-permission", k, "user %s mode %r: reply %s, 403 expected" % (actor, mode, code)))
+                if attached and fault == "N" and req_valid(lastid, req) and ("R" in mode or (hard_asked and "D" in mode)):
+                    # c04_delete_request + c04_del_ranges_accepts: nothing else refuses a request
+                    res.append(("permitted-delete-accepted", k, "user %s (mode %r) sent the valid request %s (lastID=%d): reply %s, 200 expected"
+                                % (actor, mode, args[2], lastid, code)))
                 if changed_rows:
                     res.append(("rejected-delete-no-effect", k, "delete answered %s changed the stored rows" % code))
         elif kind in ("leave", "delsub"):
